@@ -1,4 +1,4 @@
-from sqlparse.sql import Function, Token
+from sqlparse.sql import Function, IdentifierList, Token
 
 from sqllineage.core.holders import SubQueryLineageHolder
 from sqllineage.core.parser.sqlparse.handlers.base import CurrentTokenBaseHandler
@@ -16,9 +16,16 @@ class SwapPartitionHandler(CurrentTokenBaseHandler):
             isinstance(token, Function)
             and token.get_name().lower() == "swap_partitions_between_tables"
         ):
-            _, parenthesis = token.tokens
-            _, identifier_list, _ = parenthesis.tokens
-            identifiers = list(identifier_list.get_identifiers())
+            parenthesis = token.tokens[-1]
+            identifier_lists = [
+                t
+                for t in getattr(parenthesis, "tokens", [])
+                if isinstance(t, IdentifierList)
+            ]
+            if len(identifier_lists) != 1:
+                # malformed argument list: nothing to extract
+                return
+            identifiers = list(identifier_lists[0].get_identifiers())
             if len(identifiers) < 4:
                 # not the (staging, min, max, target) form: nothing to extract
                 return
